@@ -696,7 +696,7 @@ def connread_family(run, replay=None):
 # =====================================================================================================
 
 def cw_cfg(writers, nf, weak=(), tail=''):
-    return 'CONSTANTS\n  Writer = %s\n  NFrames <- %s\n  Weak = %s\nCHECK_DEADLOCK FALSE\n%s\n' % (tla_set(writers), nf, tla_set(weak), tail)
+    return 'CONSTANTS\n  Writer = %s\n  NFrames <- %s\n  Weak = %s\n  PieceLen = 1\nCHECK_DEADLOCK FALSE\n%s\n' % (tla_set(writers), nf, tla_set(weak), tail)
 
 
 def connwrite_gen(run):
@@ -714,7 +714,12 @@ def connwrite_gen(run):
     a = run.generate('ConnWriteGen', cfgtext=cw_cfg(["w1", "w2"], 'NF2', weak=["lock_around_encrypt_and_write"], tail=t + 'INVARIANT NoAttack'), expect_violation=True)
     if not a:
         raise ToolTrouble('no attack interleaving without the lock')
-    groups = [('interleaving2', s2), ('interleaving3', s3), ('attack:lock_around_encrypt_and_write', [a[0]])]
+    # a payload written in several critical sections (the lock is given back in between)
+    a2 = run.generate('ConnWriteGen', cfgtext=cw_cfg(["w1", "w2"], 'NF2', weak=["payload_in_one_critical_section"], tail=t + 'INVARIANT NoAttack'), expect_violation=True)
+    if not a2:
+        raise ToolTrouble('no attack interleaving for a payload written in several critical sections')
+    groups = [('interleaving2', s2), ('interleaving2big', s2), ('interleaving3', s3), ('attack:lock_around_encrypt_and_write', [a[0]]),
+              ('attack:payload_in_one_critical_section', [a2[0]]), ('attack:payload_in_one_critical_section', [a2[0]])]
     return groups, dict(interleavings_2_writers=len(s2), interleavings_3_writers_enumerated=n3, interleavings_3_writers_replayed=len(s3), exhaustive=thorough)
 
 
@@ -729,6 +734,13 @@ def connwrite_family(run, replay=None):
     else:
         groups, stats = connwrite_gen(run)
         behs = write_behs(bpath, groups)
+        # the payload of "several frames" is two frames long, or many (49, 33 or 97: more than any piece a chunked writer takes)
+        for k, b in enumerate(behs):
+            if b['kind'] in ('interleaving2big', 'attack:payload_in_one_critical_section') or (b['kind'] == 'interleaving3' and k % 2 == 0):
+                b['big'] = (49, 33, 97)[k % 3]
+        with open(bpath, 'w') as f:
+            for b in behs:
+                f.write(json.dumps(b) + '\n')
     run.build_harness()
     tpath = os.path.join(run.dir, 'trace.ndjson')
     out = run.harness('connwrite', ['--beh', bpath, '--trace', tpath, '--seed', run.seed, '--tier', run.tier])
